@@ -14,13 +14,17 @@ RULE = ("APCI.from_knx on: ALL byte strings of length 0..2 (65,793); every 10 bi
         "built from random objects of every concrete class (found by introspection) plus their mutations "
         "(truncated/extended by one octet, one flipped bit, transport bits set); thorough: ALL 16,777,216 APDUs of "
         "length 3 in blocks of 256 (16 processes). Outcome = ok(class, fields, re-encoding, calculated length) | conv | "
-        "unsupported | other:<Exc> | timeout, compared with the Lean model. Non-trivial = distinct input that is not "
+        "unsupported | other:<Exc> | timeout, compared with the Lean model; APDUs with clear transport bits are also wrapped in an "
+        "L_Data.ind frame and CEMIFrame.from_knx must map the outcome class (malformed -> CouldNotParseCEMI, unsupported -> "
+        "UnsupportedCEMIMessage). Non-trivial = distinct input that is not "
         "rejected as 'APDU too short'.")
 TRUSTED = ["model XknxVerif.Model.APCI.* is hand-written (layout table + generic interpreter); tied by this differential run",
            "that CPython raises nothing else inside from_knx is established by the enumeration/search, not by proof",
            "harness/apci_lib.py canonicalisation of service objects (flattening of nested objects, addresses as integers)"]
 
 RECOGNISED = None
+_STASH = {}
+CEMI_CHECKED = [0]
 
 
 def setup():
@@ -37,8 +41,38 @@ def generate(rng, tier):
     yield from S.decode_stream(rng, tier, "C04")
 
 
+def cemi_outcome(apdu: bytes) -> str:
+    """The same APDU inside an L_Data.ind frame to an individual address (T_Data_Individual)."""
+    from xknx.cemi import CEMIFrame
+    from xknx.exceptions import CouldNotParseCEMI, UnsupportedCEMIMessage
+
+    frame = bytes([0x29, 0x00, 0xBC, 0x60, 0x11, 0x01, 0x11, 0x02, len(apdu) - 1]) + apdu
+    try:
+        f = CEMIFrame.from_knx(frame)
+    except CouldNotParseCEMI:
+        return "conv"
+    except UnsupportedCEMIMessage:
+        return "unsupported"
+    except Exception as e:  # noqa: BLE001
+        return "other:" + type(e).__name__
+    return "ok " + L.canon_obj(f.data.payload)
+
+
 def run_impl(case):
-    return S.run_decode_case(case, "C04")
+    out = S.run_decode_case(case, "C04")
+    _STASH.clear()
+    t = case["op"].split()
+    if t[1] == "dec":
+        raw = bytes.fromhex(t[2].replace("-", ""))
+        # second anchor: CEMILData.from_knx maps unsupported -> UnsupportedCEMIMessage, malformed -> CouldNotParseCEMI
+        if 1 <= len(raw) <= 255 and raw[0] & 0xFC == 0:
+            CEMI_CHECKED[0] += 1
+            c = cemi_outcome(raw)
+            want = ("ok " + L.split_dec(out)[0]) if out.startswith("ok ") else out
+            if c != want:
+                _STASH[case["op"]] = (f"APDU {raw.hex()}: APCI.from_knx gives {want[:120]} but inside an L_Data frame "
+                                      f"CEMIFrame.from_knx gives {c[:120]}")
+    return out
 
 
 def oracle(case, out):
@@ -47,7 +81,7 @@ def oracle(case, out):
         return f"service classes with field types the harness does not model: {um}"
     if case["op"].startswith("apci sweep"):
         return S.SWEEP_ORACLE.pop(case["op"], None)
-    return oracle_one(bytes.fromhex(case["op"].split()[2].replace("-", "")), out)
+    return oracle_one(bytes.fromhex(case["op"].split()[2].replace("-", "")), out) or _STASH.get(case["op"])
 
 
 def oracle_one(raw, out):
@@ -86,4 +120,4 @@ def shrink(case, msg):
 
 
 def evidence_extra():
-    return S.evidence_extra()
+    return dict(S.evidence_extra(), apdus_also_checked_inside_cemi_frame=CEMI_CHECKED[0])
